@@ -454,6 +454,18 @@ def unit_memory_init():
             if r is not None:
                 path.prove(f"MemoryData.Init[{rg}]::value", to_sint(r._raw[0]) == v)
         parts.append(Exploration(f"MemoryData.Init[{rg}]", body).run())
+    # rows taken from ANOTHER memory's initial contents (an Init object, whose rows are already wrapped -- to the other
+    # memory's shape): wrapped again to this memory's shape, whatever the two shapes' signedness
+    for (ws, ss), (wd, sd) in [((3, False), (3, True)), ((3, True), (3, False)), ((4, False), (3, True)), ((2, True), (4, False))]:
+        def body(path, ws=ws, ss=ss, wd=wd, sd=sd):
+            v = path.var("row", -(1 << (ws + 1)), (1 << (ws + 1)))
+            with shimmed(U, A, M):
+                src = M.MemoryData.Init([v, 1], shape=A.Shape(ws, ss), depth=2)
+                dst = M.MemoryData.Init(src, shape=A.Shape(wd, sd), depth=2)
+            nm = f"MemoryData.Init[{wd},{sd}]::from-Init[{ws},{ss}]"
+            path.prove(f"{nm}::row-wrapped-to-this-shape", to_sint(dst._raw[0]) == to_sint(norm(norm(v, ws, ss), wd, sd)))
+            path.prove(f"{nm}::source-untouched", to_sint(src._raw[0]) == to_sint(norm(v, ws, ss)))
+        parts.append(Exploration(f"MemoryData.Init[{wd},{sd}]<-Init[{ws},{ss}]", body).run())
     return parts
 
 
